@@ -561,6 +561,8 @@ func (d *dataCloser) Close() error {
 	if d.closed {
 		return fmt.Errorf("smtp: data writer closed twice")
 	}
+	// Whatever the server's verdict, the end-of-data marker goes out once.
+	d.closed = true
 
 	if err := d.WriteCloser.Close(); err != nil {
 		return err
@@ -593,7 +595,6 @@ func (d *dataCloser) Close() error {
 		}
 	}
 
-	d.closed = true
 	return nil
 }
 
